@@ -968,6 +968,9 @@ func (fr *Frame) execRecv(i *ssa.UnOp) {
 	v := fr.freshVal("recv", et)
 	if i.CommaOk {
 		ok := fr.mkVal(fr.vc.fresh("recv.ok", SBool), types.Typ[types.Bool])
+		if v.T != "" && len(v.Tup) == 0 {
+			fr.vc.assume(fr.reach, imp(not(ok.T), eq(v.T, fr.zero(et)))) // a closed channel yields the zero value
+		}
 		fr.onRecvOk(ch, v, ok.T, i.Pos())
 		fr.set(i, &Val{S: "Tuple", Typ: i.Type(), Tup: []*Val{v, ok}})
 	} else {
